@@ -34,10 +34,10 @@ REAL = ['glue.core.data.Data mutation API', 'glue.core.component_id', 'glue.core
 STUB = ['recording HubListener', 'uuid and identity-hash streams']
 ASSUMPTIONS = ['messages are compared only when no delay window is open', 'generator guard of the open finding excludes update_values_from_data with a different number of dimensions', 'sampling, not proof']
 PROBES = ['rejected_add_wrong_shape', 'rejected_reorder', 'rejected_update_wrong_shape', 'partial_update_then_reject', 'cascade_remove', 'coords_replaced',
-          'coords_removed', 'update_from_new_shape', 'update_from_label_mismatch', 'ops_in_delay_window', 'outside_collection', 'rename', 'update_id', 'joined_collection_later']
+          'coords_removed', 'update_from_new_shape', 'update_from_label_mismatch', 'ops_in_delay_window', 'outside_collection', 'rename', 'update_id', 'joined_collection_later', 'identifier_of_rejected_add_reused', 'flipflop_reorder', 'flipflop_remove_add', 'flipflop_update_id']
 
 WEIGHTS = {'add': 5, 'add_bad': 1.5, 'add_derived': 3, 'remove': 3, 'reorder': 2, 'reorder_bad': 1, 'rename': 2, 'update_id': 1.5, 'upd': 3, 'upd_bad': 1,
-           'upd_partial': 1, 'upd_from': 2, 'coords': 2, 'label': 1, 'delay_open': 1, 'delay_close': 1.5, 'new': 0.7, 'append': 1}
+           'upd_partial': 1, 'upd_from': 2, 'coords': 2, 'label': 1, 'delay_open': 1, 'delay_close': 1.5, 'new': 0.7, 'append': 1, 'flipflop': 1.2}
 
 
 def generate(rng, cfg, guards):
@@ -55,7 +55,9 @@ def generate(rng, cfg, guards):
         if k == 'new':
             ops.append(['new', rng.randrange(len(W.SHAPES)), rng.randrange(1, 3), rng.randrange(10000), rng.pick([0, 0, 1, 2]), rng.chance(0.75)])
         elif k in ('add', 'add_bad'):
-            ops.append([k, r8(), rng.randrange(10000), rng.pick(['array', 'component'])])
+            ops.append([k, r8(), rng.randrange(10000), rng.pick(['array', 'component']), rng.pick([None, None, 'cid', 'cid', 'reuse'])])
+            if k == 'add' and ops[-1][4] == 'reuse' and rng.chance(0.6):
+                ops.append(['rename', ops[-1][1], -1])
         elif k == 'add_derived':
             ops.append([k, r8(), r8(), rng.pick(sorted(LF.ONE))])
         elif k in ('remove', 'update_id'):
@@ -79,6 +81,14 @@ def generate(rng, cfg, guards):
             ops.append([k, 'hub'])
         elif k == 'append':
             ops.append(['append', r8()])
+        elif k == 'flipflop':
+            # a change, its inverse, the change again ... on the same identifier objects (toggling a setting back and forth),
+            # half of the time inside one hub delay window
+            ff = [k, r8(), rng.pick(['reorder', 'remove_add', 'update_id']), rng.pick([2, 3, 3, 4]), r8(), rng.randrange(10000)]
+            if rng.chance(0.5):
+                ops.extend([['delay_open', 'hub'], ff, ['delay_close', False]])
+            else:
+                ops.append(ff)
         else:
             ops.append(['delay_close', rng.chance(0.2)])
     return {'knobs': {'guards': list(guards), 'prop': PROP}, 'ops': ops}
@@ -173,6 +183,8 @@ def execute(case, res):
     nname = [0]
     base = {}
     replaces = []
+    rejected = []
+    last_added = [None]
 
     def pick(h):
         return datasets[h % len(datasets)] if datasets else None
@@ -221,14 +233,27 @@ def execute(case, res):
                 shape = d.shape if k == 'add' else tuple(s + 1 for s in d.shape)
                 arr = W.values(op[2], shape)
                 obj = Component(arr) if op[3] == 'component' else arr
+                how = op[4] if len(op) > 4 else None
+                label = 'n%d' % nname[0]
+                if how == 'reuse' and rejected:
+                    # an identifier object that another add_component call has refused before
+                    label = rejected.pop()
+                    res.probe('identifier_of_rejected_add_reused')
+                elif how in ('cid', 'reuse'):
+                    label = ComponentID(label)
+                    keep.append(label)
                 try:
-                    d.add_component(obj, 'n%d' % nname[0])
+                    d.add_component(obj, label)
+                    if k == 'add' and isinstance(label, ComponentID):
+                        last_added[0] = label
                     if k == 'add_bad':
                         raise Violation('C17/wrong-shape-accepted/add', 'component of shape %s added to dataset of shape %s' % (shape, d.shape))
                 except ValueError:
                     if k == 'add':
                         raise
                     outcome = 'rejected'
+                    if isinstance(label, ComponentID):
+                        rejected.append(label)
                     res.probe('rejected_add_wrong_shape')
                     res.fault('rejected_call')
             elif k == 'add_derived':
@@ -283,7 +308,10 @@ def execute(case, res):
                     continue
                 cs = own(d)
                 nname[0] += 1
-                cs[op[2] % len(cs)].label = 'r%d' % nname[0]
+                c = cs[op[2] % len(cs)]
+                if op[2] == -1 and last_added[0] is not None and any(last_added[0] is x for x in cs):
+                    c = last_added[0]
+                c.label = 'r%d' % nname[0]
                 res.probe('rename')
             elif k == 'update_id':
                 d = target = pick(op[1])
@@ -300,6 +328,43 @@ def execute(case, res):
                 d.update_id(old, new)
                 replaces.append((d, old, new))
                 res.probe('update_id')
+            elif k == 'flipflop':
+                d = target = pick(op[1])
+                if d is None:
+                    continue
+                kind, times = op[2], op[3]
+                if kind == 'reorder':
+                    cs = list(d.components)
+                    perm = np.random.RandomState(op[5]).permutation(len(cs))
+                    other = [cs[i] for i in perm]
+                    for i in range(times):
+                        d.reorder_components(other if i % 2 == 0 else cs)
+                elif kind == 'remove_add':
+                    mains = [c for c in d.main_components]
+                    if len(mains) < 2:
+                        continue
+                    c = mains[op[4] % len(mains)]
+                    if any(any(c is f for f in d.get_component(x).link.get_from_ids()) for x in d.derived_components):
+                        continue        # removing it would cascade; the plain alternation is what is wanted here
+                    comp = d.get_component(c)
+                    for i in range(times):
+                        if i % 2 == 0:
+                            d.remove_component(c)
+                        else:
+                            d.add_component(comp, c)
+                else:
+                    mains = list(d.main_components)
+                    a = mains[op[4] % len(mains)]
+                    if any(any(a is f for f in d.get_component(x).link.get_from_ids()) for x in d.derived_components):
+                        continue
+                    nname[0] += 1
+                    z = ComponentID('z%d' % nname[0])
+                    keep.append(z)
+                    for i in range(times):
+                        o, n_ = (a, z) if i % 2 == 0 else (z, a)
+                        d.update_id(o, n_)
+                        replaces.append((d, o, n_))
+                res.probe('flipflop_' + kind)
             elif k in ('upd', 'upd_bad', 'upd_partial'):
                 d = target = pick(op[1])
                 if d is None:
@@ -409,7 +474,7 @@ def compare_step(d, b, a, sink, k, outcome, res, w, replaced):
     renamed = [c for c, lab, _, _ in a['comps'] if id(c) in bl and bl[id(c)][0] != lab]
     changed_vals = [c for c, _, dig, _ in a['comps'] if id(c) in bl and bl[id(c)][1] != dig]
     where = '%s:%s' % (k, outcome)
-    if reordered and not k.startswith(('reorder', 'upd_from', 'delay_close')):
+    if reordered and not k.startswith(('reorder', 'upd_from', 'delay_close', 'flipflop')):
         raise Violation('C17/order-not-stable/%s' % where, 'before %s after %s' % ([c.label for c in common_b], [c.label for c in common_a]))
     structural = bool(added or removed or reordered or renamed or changed_vals or b['label'] != a['label'] or b['shape'] != a['shape'])
     if structural:
@@ -420,22 +485,51 @@ def compare_step(d, b, a, sink, k, outcome, res, w, replaced):
         return
     msgs = [describe(m) for m in sink if m.data is d]
     names = [m[0] for m in msgs]
+    # ---- a client that only listens: replaying the announcements in the order received, from the component list at the last
+    # quiescent point, must arrive at the present component list (this is what matters when a delay window sums up several
+    # operations: each change announced, in order, none dropped as a "duplicate")
+    mirror = list(bid)
+    order_msg = None
+    for m in sink:
+        if m.data is not d:
+            continue
+        n = type(m).__name__
+        if n == 'DataAddComponentMessage':
+            if not any(m.component_id is x for x in mirror):
+                mirror.append(m.component_id)
+            order_msg = None
+        elif n == 'DataRemoveComponentMessage':
+            mirror = [x for x in mirror if x is not m.component_id]
+            order_msg = None
+        elif n == 'ComponentReplacedMessage':
+            mirror = [m.new if x is m.old else x for x in mirror]
+            if order_msg is not None:
+                order_msg = [m.new if x is m.old else x for x in order_msg]
+        elif n == 'DataReorderComponentMessage':
+            order_msg = list(m.component_ids)
+    res.nchecks += 1
+    if len(mirror) != len(aid) or any(not any(x is y for y in aid) for x in mirror):
+        raise Violation('C17/replayed-announcements-differ/%s' % where, 'a listener replaying the announcements holds %s, the dataset %s' % (
+            [c.label for c in mirror], [c.label for c in aid]))
+    if order_msg is not None and (len(order_msg) != len(aid) or any(x is not y for x, y in zip(order_msg, aid))):
+        raise Violation('C17/replayed-announcements-differ/order:%s' % where, 'the last DataReorderComponentMessage carries %s, the dataset has %s' % (
+            [c.label for c in order_msg], [c.label for c in aid]))
 
     def count(name, *rest):
         return sum(1 for m in msgs if m[0] == name and m[2:2 + len(rest)] == rest)
 
     for c in added:
         n = count('DataAddComponentMessage', id(c))
-        if n != 1 and not any(c is x for x in removed):
+        if (n != 1 if not k.startswith(('delay_close', 'flipflop')) else n < 1) and not any(c is x for x in removed):
             raise Violation('C17/add-not-announced-once/%s' % where, 'component %s added, %d DataAddComponentMessage' % (c.label, n))
     for c in removed:
         n = count('DataRemoveComponentMessage', id(c))
-        if n != 1:
+        if (n != 1 if not k.startswith(('delay_close', 'flipflop')) else n < 1):
             raise Violation('C17/remove-not-announced-once/%s' % where, 'component %s removed, %d DataRemoveComponentMessage' % (c.label, n))
     transient = set()
     # a step that closes a delay window sums up several operations: an identifier can have been added, renamed, replaced
     # and removed inside it, so only the net requirements above are checked there, not "nothing else was announced"
-    strict = not k.startswith('delay_close')
+    strict = not k.startswith(('delay_close', 'flipflop'))
     for m in (msgs if strict else []):
         if m[0] == 'DataAddComponentMessage' and not any(m[2] == id(c) for c in added):
             if count('DataRemoveComponentMessage', m[2]) >= 1:
@@ -453,7 +547,8 @@ def compare_step(d, b, a, sink, k, outcome, res, w, replaced):
     if not idset_changed and ncc > 0 and not transient and strict:
         raise Violation('C17/components-changed-announced-without-change/%s' % where, '%d messages' % ncc)
     for o, n in replaced:
-        if count('ComponentReplacedMessage', id(o), id(n)) != 1:
+        nrep = count('ComponentReplacedMessage', id(o), id(n))
+        if (nrep != 1 if strict else nrep < 1):
             raise Violation('C17/replace-not-announced/%s' % where, 'update_id without exactly one ComponentReplacedMessage(old, new)')
     if not replaced and 'ComponentReplacedMessage' in names and strict:
         raise Violation('C17/replace-announced-without-update-id/%s' % where, '')
